@@ -32,7 +32,7 @@ def ensure_jobs(tier):
 
 
 def save_jobs(tier):
-    return [{"id": f"O1.save.branchable{b}", "func": "VerifH_S1_Save", "conf": {"branchable": b, "faults": 80, "dag": "", "orders": "all", "shortid": 0},
+    return [{"id": f"O1.save.branchable{b}", "func": "VerifH_S1_Save", "conf": {"branchable": b, "faults": 80, "dag": "", "orders": "all", "shortid": 0, "for": "C05"},
              "_obligation": "O1+O2", "_covers": ["faulted"], "unwind": 160} for b in (0, 1)]
 
 
